@@ -97,6 +97,9 @@ def files_for(fmt, tier):
                 out.append({"fmt": "csv", "cols": cols, "sep": ";", "header": False, "encoding": "latin-1"})
             if t == "T3r":
                 out.append({"fmt": "csv", "cols": cols, "sep": ";", "header": True, "encoding": "utf-8"})
+                # the same numbers written as 007 / 8.0 / 0.50: casting what was read is not the same as taking the cell text
+                out.append({"fmt": "csv", "cols": cols, "sep": ",", "header": True, "encoding": "utf-8",
+                            "raw": {"a": ["007", "08"], "c": ["0.50", ""]}})
             if t == "T2" and tier == "thorough":
                 out.append({"fmt": "csv", "cols": cols, "sep": "\t", "header": True, "encoding": "utf-16"})
         elif fmt in ("json", "geojson"):
@@ -141,8 +144,10 @@ def csv_text(f):
     lines = []
     if f["header"]:
         lines.append(f["sep"].join(c[0] for c in cols))
+    raw = f.get("raw") or {}
     for i in range(len(cols[0][2])):
-        lines.append(f["sep"].join(cell(c[2][i]) for c in cols))
+        # "raw" gives the literal cell text of a column (numbers not written in their canonical form)
+        lines.append(f["sep"].join(raw[c[0]][i] if c[0] in raw else cell(c[2][i]) for c in cols))
     return "".join(x + "\n" for x in lines)
 
 
